@@ -42,11 +42,15 @@ def run(ctx):
         "registers/memory, division by zero) and the reset cycle are not compared; single clock, reset asserted in cycle 0 only",
         "harness/src/dom_synth.rs + checks/net_common.py",
     ]
-    ctx.cov["rule"] = ("generated synthesizable designs (S0: unsigned <=64 bit no / %; S1 +signed; S2 + / %; S3 +65..300 bit; "
-                       "registers with if_reset (5 reset types, 3 clock types), counters, case decode, arrays/RAM, hierarchy, "
-                       "interface) x 4 libraries x RamConfig {default, min_bits 0, huge}; random + boundary stimuli; "
-                       "netlist outputs (Lean Netlist.run = Rust evaluator) vs real RTL simulation cycle by cycle; failing "
-                       "combinational designs shrunk and keyed by signature; distinct = distinct netlists")
+    ctx.cov["rule"] = ("recorded witnesses + committed regression corpus (corpus/C19/regress.txt, must pass) + generated "
+                       "synthesizable designs (S0: unsigned <=64 bit no / %; S1 +signed; S2 + / %; S3 +65..300 bit; registers "
+                       "with if_reset (5 reset types, 3 clock types), counters, case decode, arrays/RAM, hierarchy, interface) x "
+                       "4 libraries x RamConfig {default, min_bits 0, huge}; random + boundary stimuli; netlist outputs (Lean "
+                       "Netlist.run = independent Rust evaluator) vs the 2-state INTERPRETER on the RTL, cycle by cycle, on "
+                       "cycles where the 4-state interpreter is X-free and no divisor is 0. A failing design is attributed to a "
+                       "recorded DEFECT CLASS only if its predicate is verified on that design: combinational -> shrunk "
+                       "expression still fails AND the twin with the mechanism rewritten away agrees with the simulator; "
+                       "template -> the template's twin agrees. distinct = distinct netlists")
     if not harness_build(ctx):
         return
     # 1. witnesses of the recorded findings first: an entry whose witness no longer fails suppresses nothing
@@ -65,7 +69,23 @@ def run(ctx):
             ctx.notes.append(f"known findings whose witness no longer fails (they suppress nothing): {dead}")
     listed = {f["key"] for f in ctx.findings if f.get("kind") == "known"}
     ctx.cov["known_witnesses_live"] = sorted(live)
-    # 2. generated designs
+    # 2. the regression corpus: every design in it agrees with the simulator on the unchanged tree
+    for r in corpus_rows(ctx):
+        ctx.cov["evaluations"] += 1
+        if r.bad or r.imp.get("wf") != "1" or r.ora.get("out", "?") == "?":
+            ctx.violation(f"corpus design {r.id} is no longer accepted / synthesizable / simulable: {r.imp_line[:120]}",
+                          replay_body(r, "impl!=oracle", "regression corpus"), kind="impl!=oracle")
+            continue
+        cyc = cycles_differ(r.imp.get("out", "[]"), r.ora["out"], 0)
+        if r.mod.get("out") != r.imp.get("out"):
+            ctx.violation(f"corpus design {r.id}: Netlist.run and the independent evaluator disagree",
+                          replay_body(r, "model!=impl", "regression corpus"), no_input=True, kind="model!=impl")
+        elif cyc is not None:
+            ctx.violation(f"corpus design {r.id} ({r.op.get('kind')}): netlist != RTL simulation at cycle {cyc}: netlist "
+                          f"{plist(r.imp.get('out'))[cyc]} simulator {plist(r.ora.get('out'))[cyc]}",
+                          replay_body(r, "impl!=oracle", "regression corpus"), kind="impl!=oracle")
+    ctx.cov["corpus_designs"] = ctx.cov["evaluations"]
+    # 3. generated designs
     n, cycles = sizes(ctx)
     args = ["--seed", ctx.seed, "--n", n, "--cycles", cycles, "--shrinks", 100000]
     if getattr(ctx, "replay", None):
@@ -104,19 +124,35 @@ def run(ctx):
     ctx.cov["netlists_compared_with_simulator"] = compared
     ctx.cov["xfree_cycles_compared"] = xfree
     ctx.cov["designs_netlist_ne_simulator"] = len(failing)
+    ndesigns = len({r.id for r in rows if not r.bad and not r.witness and "." not in r.id})
+    ctx.cov["designs_generated_and_compared"] = ndesigns
+    ctx.cov["residual_rate_netlist_ne_simulator"] = round(len(failing) / ndesigns, 4) if ndesigns else 0
+    ctx.cov["failing_by_stratum_kind"] = {}
+    for did, (r, _) in failing.items():
+        k = f"{r.op.get('S')}/{r.op.get('kind')}"
+        ctx.cov["failing_by_stratum_kind"][k] = ctx.cov["failing_by_stratum_kind"].get(k, 0) + 1
     for did, (r, cyc) in sorted(failing.items()):
         s = shrunk.get(did)
         t = twins.get(did)
         key, extra = None, {"first_failing_cycle": cyc}
         if s is not None and s.ora.get("out", "?") != "?" and not s.bad:
-            # combinational design: the shrunk design must itself fail; its signature is the key
-            if cycles_differ(s.imp.get("out", "[]"), s.ora["out"], 0) is not None:
+            # combinational design: (1) the shrunk design must itself fail; (2) its neutralised twin (the
+            # suspected mechanism rewritten away, see dom_synth.rs classify_comb) must AGREE with the simulator on
+            # the same stimulus. Only then is the defect-class key of the shrunk line established.
+            st = twins.get(did + ".shrunk")
+            fails = cycles_differ(s.imp.get("out", "[]"), s.ora["out"], 0) is not None
+            twin_ok = (st is not None and not st.bad and st.imp.get("wf") == "1" and st.ora.get("out", "?") != "?"
+                       and st.mod.get("out") == st.imp.get("out") and st.op.get("sig") == s.op.get("sig")
+                       and cycles_differ(st.imp.get("out", "[]"), st.ora["out"], 0) is None
+                       and any("x" not in c.split(":")[0] for c in plist(st.ora["out"])))
+            extra.update({"shrunk_source": decode_src(s.op.get("src", "-")), "shrunk_stimulus": s.op.get("stim"),
+                          "shrunk_netlist_out": s.imp.get("out"), "shrunk_simulator_out": s.ora.get("out"),
+                          "shrunk_fails": fails, "twin_agrees": twin_ok})
+            if fails and twin_ok:
                 sig = s.op.get("sig")
                 # a listed signature counts only while its recorded witness still fails
                 key = sig if (sig not in listed or sig in live) else None
-                extra.update({"signature": sig, "shrunk_source": decode_src(s.op.get("src", "-")),
-                              "shrunk_request": s.op_line[:20000], "shrunk_stimulus": s.op.get("stim"),
-                              "shrunk_netlist_out": s.imp.get("out"), "shrunk_simulator_out": s.ora.get("out")})
+                extra.update({"signature": sig, "twin_source": decode_src(st.op.get("src", "-"))})
         elif t is not None and t.ora.get("out", "?") != "?" and not t.bad and t.imp.get("wf") == "1":
             # template design: the twin (suspected construct written differently) must AGREE with the simulator
             # on the same stimulus, on at least as many X-free cycles
